@@ -51,9 +51,18 @@ def defaults(chk, prop):
 def which_scenario(chk, prop):
     """default classifier: Serial <=> "serial" in scenario + rule + feature tags"""
     prog = chk.prog
-    body = prog.bodies.get(default_body(prog).name + '::{closure#0}')
-    if body is None:
-        raise Inconclusive('default which_scenario closure not found')
+    dbody = default_body(prog)
+    BF = prog.tables.struct_fields('runner::basic::Basic<W>')
+    if not isinstance(BF, list) or 'which_scenario' not in BF:
+        raise Inconclusive('runner::Basic has no field which_scenario')
+    body = None
+
+    def invoke(ex_, args):
+        # the classifier is the value <Basic as Default>::default() stores in `which_scenario` (a closure, a fn item, ..)
+        ex_.models.opaque_bodies |= {'Collection::new'}
+        dv = ex_.materialize(ex_.call_body(dbody, []))
+        f = ex_.field_of(dv, None, BF.index('which_scenario'), '?')
+        return ex_.call_value(f, args)
     vs = prog.tables.enum_variants('runner::basic::ScenarioType')
     serial = [i for i, v in enumerate(vs) if v[0] == 'Serial'][0]
 
@@ -111,4 +120,92 @@ def which_scenario(chk, prop):
             o.verdict = 'inconclusive'
             o.detail += ' | not reproduced natively (the real runner schedules the scenario as specified)'
     return tagsets.tag_predicate_obligation(chk, body, '%s.default-which_scenario' % prop, 'serial', negate=False,
-                                            arg_order=('feature', 'rule', 'scenario'), closure_self=True, to_bool=to_bool, confirm=confirm)
+                                            arg_order=('feature', 'rule', 'scenario'), closure_self=True, to_bool=to_bool, confirm=confirm, invoke=invoke)
+
+
+def setters(chk, prop, which=('max_concurrent_scenarios', 'retries', 'retry_after', 'fail_fast')):
+    """The builder's option setters store exactly what they are given (`None` included) and touch nothing else:
+    each setter body on a runner with arbitrary current settings and an arbitrary argument."""
+    prog = chk.prog
+    BF = prog.tables.struct_fields('runner::basic::Basic<W>')
+    out = []
+    for name in which:
+        body = common.find_method(prog, 'Basic', name)
+        o = chk.add(Obligation('%s.builder-setter[%s]' % (prop, name), 'every current value of the settings and every argument (presence + 64-bit value)'))
+        o.verdict = 'holds'
+        ex, M = chk.new_exec(loop_bound=4)
+        tys = {'max_concurrent_scenarios': 'usize', 'retries': 'usize', 'retry_after': 'std::time::Duration'}
+        cur = {n: (z3.BitVec('cur.%s.d' % n, 64), z3.BitVec('cur.%s' % n, 64)) for n in tys}
+        cur_ff = z3.Bool('cur.fail_fast')
+        arg_d, arg_v = z3.BitVec('arg.d', 64), z3.BitVec('arg', 64)
+
+        def run(ex_, name=name, body=body):
+            ex_.add(z3.ULT(arg_d, bv(2)))
+            fields = {(None, i): Lazy('?', 'self.%s' % n) for i, n in enumerate(BF)}
+            for n, (d, v) in cur.items():
+                ex_.add(z3.ULT(d, bv(2)))
+                fields[(None, BF.index(n))] = Adt('Option<%s>' % tys[n], {(1, 0): v}, d)
+            fields[(None, BF.index('fail_fast'))] = cur_ff
+            selfv = Adt('runner::basic::Basic<W>', fields)
+            args = [selfv] if name == 'fail_fast' else [selfv, Adt('Option<%s>' % tys[name], {(1, 0): arg_v}, arg_d)]
+            return ex_.materialize(ex_.call_body(body, args))
+
+        def on_end(ex_, rec, name=name):
+            kind, res, pc, dec = rec
+            o.paths += 1
+            if kind != 'ok':
+                o.verdict = 'inconclusive'
+                o.detail = '%s: %s' % (kind, res)
+                return
+            claims = []
+            for n, (d, v) in cur.items():
+                f = ex_.materialize(ex_.field_of(res, None, BF.index(n), 'Option'))
+                fd = M.discr(ex_, f)
+                wd, wv = (arg_d, arg_v) if n == name else (d, v)
+                claims.append(fd == wd)
+                claims.append(z3.Implies(wd == bv(1), ex_.materialize(ex_.field_of(f, 1, 0, tys[n]), tys[n]) == wv))
+            ff = ex_.materialize(ex_.field_of(res, None, BF.index('fail_fast'), 'bool'), 'bool')
+            claims.append(ff == (z3.BoolVal(True) if name == 'fail_fast' else cur_ff))
+            o.queries += 1
+            if ex_.check(z3.Not(z3.And(*claims))):
+                m = ex_.solver.model()
+                o.verdict = 'violated'
+                o.model = {'setter': name, 'current': {n: (str(m.eval(d, model_completion=True)), str(m.eval(v, model_completion=True))) for n, (d, v) in cur.items()},
+                           'argument': (str(m.eval(arg_d, model_completion=True)), str(m.eval(arg_v, model_completion=True)))}
+                o.detail = 'the setter does not store its argument / changes another setting'
+        ex.explore(run, on_end)
+        if o.verdict == 'violated':
+            confirm_setter(chk, o, prop, name)
+        out.append(o)
+    return out
+
+
+def confirm_setter(chk, o, prop, name):
+    """native replay: the setter applied after another value through the real builder, observed through the real runner"""
+    import os
+    import re
+    from checks import replay
+    d = os.path.join(common.EVID, 'replay')
+    os.makedirs(d, exist_ok=True)
+    path = os.path.join(d, '%s-builder-setter-%s.script' % (prop, name))
+    feat3 = ['feature', '| Feature: f'] + sum([['|   Scenario: s%d' % i, '|     Given x%d' % i] for i in range(3)], [])
+    if name == 'max_concurrent_scenarios':
+        cases = [(['builder max_concurrent=1', 'builder max_concurrent=none'], 3), (['builder max_concurrent=none', 'builder max_concurrent=2'], 2),
+                 (['builder max_concurrent=3', 'builder max_concurrent=1'], 1)]
+        devs = []
+        for lines, want in cases:
+            res, out = replay.run_script('\n'.join(['mode runner'] + lines + feat3 + ['step x%d yields=4' % i for i in range(3)]) + '\n', path, timeout=60)
+            chk.replays += 1
+            if res is not None and res.get('peak_user_code') != want:
+                devs.append('%s: peak scenarios in user code %s, specification %d' % (' then '.join(lines), res.get('peak_user_code'), want))
+                break
+        if devs:
+            chk.replay_files.append(path)
+            o.replay = path
+            o.detail += ' | reproduced natively through the real builder and runner: %s' % devs[0]
+        else:
+            o.verdict = 'inconclusive'
+            o.detail += ' | not reproduced natively (the real builder keeps the last value set)'
+        return
+    o.verdict = 'inconclusive'
+    o.detail += ' | no native replay for this setter'
